@@ -435,6 +435,10 @@ func (c *Compiler) compileAssignStatement(stmt *ast.AssignStatement) error {
 	// If it exists in a parent scope, this is an assignment to that variable
 	if _, existsInParent := c.symbolTable.Resolve(stmt.Target); !existsInParent {
 		c.symbolTable.Define(stmt.Target, nameIdx)
+	} else if existing, isLocal := c.symbolTable.ResolveLocal(stmt.Target); isLocal && existing.IsBuiltin {
+		// The declaration takes the built-in's place: from here on the name
+		// is a user variable, which cannot be declared again in this scope.
+		c.symbolTable.Define(stmt.Target, nameIdx)
 	}
 
 	return nil
